@@ -69,6 +69,8 @@ func init() {
 		"(time.Time).Before":       func(fr *frame, a []Value) Value { return fr.th.eng.pool.Cmp(OpSlt, timeNS(a[0]), timeNS(a[1])) },
 		"(time.Time).IsZero":       func(fr *frame, a []Value) Value { return fr.th.eng.pool.Cmp(OpEq, timeNS(a[0]), fr.th.eng.pool.BV(0, 64)) },
 		"(time.Time).UnixNano":     func(fr *frame, a []Value) Value { return timeNS(a[0]) },
+		"net.Dial":                 netDial,
+		"net/url.Parse":            urlParse,
 		"runtime.Gosched":           func(fr *frame, a []Value) Value { fr.th.yield("Gosched"); return nil },
 		"time.Sleep":                func(fr *frame, a []Value) Value { fr.th.yield("Sleep"); return nil },
 	}
@@ -473,4 +475,39 @@ func timeAdd(fr *frame, a []Value) Value {
 
 func timeSub(fr *frame, a []Value) Value {
 	return fr.th.eng.pool.Bin(OpSub, timeNS(a[0]), timeNS(a[1]))
+}
+
+// net.Dial returns the pipe the harness registered with vrtSetDialConn.
+func netDial(fr *frame, a []Value) Value {
+	e := fr.th.eng
+	if e.dialConn.t == nil {
+		return Tuple{Iface{}, e.errorString("dial: no harness connection registered")}
+	}
+	c := e.dialConn
+	e.dialConn = Iface{}
+	return Tuple{c, Iface{}}
+}
+
+// url.Parse for the form scheme://host used by the harness.
+func urlParse(fr *frame, a []Value) Value {
+	e := fr.th.eng
+	s, ok := a[0].(Str).Concrete()
+	i := strings.Index(s, "://")
+	if !ok || i < 0 {
+		return Tuple{(*Value)(nil), e.errorString("parse: unsupported URI form")}
+	}
+	ut := fr.fn.Signature.Results().At(0).Type().(*types.Pointer).Elem()
+	u := e.zero(ut).(Struct)
+	st := ut.Underlying().(*types.Struct)
+	for k := 0; k < st.NumFields(); k++ {
+		switch st.Field(k).Name() {
+		case "Scheme":
+			u[k] = Str{s: s[:i]}
+		case "Host":
+			u[k] = Str{s: s[i+3:]}
+		}
+	}
+	cell := new(Value)
+	*cell = u
+	return Tuple{cell, Iface{}}
 }
